@@ -21,7 +21,7 @@ CommandCases ==
 LongPayloadCases ==
     {[op |-> "decode2", tag |-> "command-long-payload", c |-> c, sv |-> << >>, wire |-> <<c>> \o Rep(fill, n)]
      @@ (IF CommandTable[c].kind \in {"unassigned", "unsupported"} THEN [fault |-> "command"] ELSE << >>)
-        : c \in {0, 4, 7, 8, 9, 11, 13, 64, 66, 127, 128, 255}, fill \in {0, 160}, n \in {1023, 1024, 7607, 7608, 7609, 7610, 20000}}
+        : c \in {0, 4, 7, 8, 9, 11, 13, 64, 66, 127, 128, 255}, fill \in {0, 160}, n \in {1023, 1024, 7607, 7608, 7609, 7610, 20000, 65534, 65535, 65536, 65537}}
 
 \* the commands CTAP 2.1 defines and this library does NOT support (bioEnrollment 0x09,
 \* authenticatorConfig 0x0D, the bio prototype 0x40) followed by bodies of the shape the standard
